@@ -244,6 +244,24 @@ func HarnessC02Service(a []int) {
 		same = ok && c02DevEqual(&x.DeviceHardware, &y.DeviceHardware) && c02FamEqual(&x.SupportedServices, &y.SupportedServices)
 	}
 	verifAssert("C02.same_value", same)
+	if len(a) > 6 && a[6] == 1 && (svc == 6 || svc == 8) {
+		// a decoded value is the caller's: it stays what it is when the datagram buffer is reused and
+		// when another frame of the same kind is decoded afterwards (a relay holds telegrams in a queue)
+		for i := range buf {
+			buf[i] = ^buf[i]
+		}
+		var v2 ServicePackable
+		if svc == 6 {
+			v2 = &TunnelReq{Channel: nondetU8(), SeqNumber: nondetU8(), Payload: c02Cemi(kind, infoLen, dataLen)}
+		} else {
+			v2 = &RoutingInd{Payload: c02Cemi(kind, infoLen, dataLen)}
+		}
+		var out2 Service
+		_, err2 := Unpack(AllocAndPack(v2), &out2)
+		verifAssert("C02.held.second_decodes", err2 == nil && c02ServiceEqual(v2.(Service), out2))
+		verifAssert("C02.held.first_value_unchanged", c02ServiceEqual(v.(Service), out))
+		verifCover("C02.held")
+	}
 	verifCover("C02.end")
 }
 
